@@ -331,8 +331,10 @@ def _fold_scalar(t, expr):
     return 'acc = cg_mix(acc, (cg_u64)(long long)(%s));' % expr
 
 
-def _gen_scalar(t, seed):
-    """C expression of type t computed from the cg_u64 expression seed"""
+def _gen_scalar(t, seed, ret=False):
+    """C expression of type t computed from the cg_u64 expression seed (ret: as a function result,
+    where 32-bit character types also take values that are not code points, bit 31 included: every call
+    path has to refuse those the same way)"""
     if t[0] == 'f':
         return '(%s)cg_dbl(%s)' % (t[1], seed)
     if t[0] == 'c':
@@ -340,6 +342,8 @@ def _gen_scalar(t, seed):
             return '(char)(%s)' % seed
         if t[1] == 'char16_t':
             return '(char16_t)((%s) %% 0x10000)' % seed
+        if ret:
+            return '((%s) %% 5 == 0 ? (%s)((%s) >> 7) : (%s)((%s) %% 0x110000))' % (seed, t[1], seed, t[1], seed)
         return '(%s)((%s) %% 0x110000)' % (t[1], seed)
     if t[1] == '_Bool':
         return '(_Bool)(((%s) >> 3) & 1)' % seed
@@ -458,7 +462,7 @@ def func_body(i, f, nstructs):
         if r[0] == 'f' and same and sel & 1:
             b.append('return a%d;' % same[sel // 2 % len(same)])      # pass-through (NaN, inf, ...)
         else:
-            b.append('return %s;' % _gen_scalar(r, 'acc'))
+            b.append('return %s;' % _gen_scalar(r, 'acc', ret=True))
     elif r[0] == 's':
         b.append('{ struct s%d rv; memset(&rv, 0, sizeof rv); fill_s%d(&rv, acc); return rv; }' % (r[1], r[1]))
     elif r[0] == 'p':
